@@ -10,12 +10,17 @@ TRUSTED = [
     "ReleaseBuckets) or one atomic Add (tied to /repo by the correspondence run, not verified code); the waiter's path of "
     "getOrCreate is three labels: locked lookup that finds a loading entry (pc PStart false -> PWait e), wg.Wait() returning "
     "(PWait e -> hit | PStart true), re-lock that re-examines payload[key] (PStart true -> hit | wait again | create), i.e. the "
-    "`for ok` loop; the `if ok` form without the re-examination is the variant v_retry_recheck = false",
+    "`for ok` loop; the `if ok` form without the re-examination is the variant v_retry_recheck = false; a cleaning pass is "
+    "NOT one label: LCleanBegin (getSize + markStale), then one LCleanCache c per bucket, any label in between; the seeded "
+    "`if e.deleted || e.gen.stale` of save is the variant v_save_deleted_only = false",
     "Go harness harness/cmd/hC18 (goroutines parked inside their loader callbacks, at verifhook.At in save, inside "
     "Metrics.ReattemptsTotal.Inc() -- a prometheus counter with a callback, reached through reportReattempt between a waiter's "
-    "wake-up after a failed load and its re-lock; the parked goroutine is identified by its goroutine id from runtime.Stack -- and a "
+    "wake-up after a failed load and its re-lock; the parked goroutine is identified by its goroutine id from runtime.Stack --, the "
+    "cleaner parked inside CleanerMetrics.Oldest.Set() -- a prometheus gauge with a callback, reached through OldestSet at the end of "
+    "markStale, i.e. after the generations were marked stale and before any cache is swept -- and a "
     "NewCache run from the Released() / SetGeneration() callbacks of a wrapper bucket; stable points detected through "
-    "the WaitsTotal metric and, for a goroutine parked on the cleaner mutex, through runtime.Stack; export file cache/export_verif_c18.go)",
+    "the WaitsTotal metric and, for a goroutine parked on the cleaner mutex, through runtime.Stack; export files cache/export_verif_c18.go, "
+    "cache/export_verif_c18b.go (values of the valid entries, for the 'occupied' observation))",
     "wg.Done() merged into the locked region before it; Cleaner.Cleanup's getSize+markStale taken as one step; "
     "float64 ratios 0.05 modelled as integer division by 20 (exact below 2^50); uint64 sizes as Z",
 ]
@@ -27,7 +32,8 @@ ASSUME = [
     "loader sizes and entrySize are >= 0 (label_ok; uint64 in the Go code)",
     "interleavings finer than the schedule points the harness controls (loader callbacks, the Released() scan of "
     "ReleaseBuckets, verifhook.At(\"cache.save.after-unlock\"), reportReattempt = between a waiter's wake-up after a failed "
-    "load and its re-lock) are covered by the theorems over the model only; in particular the gap between a waiter's unlock and "
+    "load and its re-lock, OldestSet = between markStale and the sweeps of a cleaning pass -- not between the sweeps of two "
+    "caches, not inside markStale) are covered by the theorems over the model only; in particular the gap between a waiter's unlock and "
     "its wg.Wait() (reportWait) and the unlocked read `e.wg == nil` after the wait are not separate schedule points of the harness",
 ]
 RULE = ("event lists on the real cache package, model evaluated in Coq on the same list: exhaustive release subsets "
@@ -42,9 +48,13 @@ RULE = ("event lists on the real cache package, model evaluated in Coq on the sa
         "the map around the recreatePayload threshold, second callers of the parked keys), retry-window schedules (>= 3 "
         "callers of one key: a creator whose loader returns an error or panics, 1..3 waiters parked between their wake-up and "
         "their re-lock, later callers of the key arriving in that window with loaders that succeed / fail at once or later, "
-        "waiters re-locking one by one -- hit, wait again, or create -- with rotations / cleaning passes in between), and the "
-        "regression schedules of the four repaired races and of the seeded `if ok` retry (witness-M9). The spec checker "
-        "evaluates on the implementation's observations: coherence, getSize = live sum after every event, managed, bound, and "
+        "waiters re-locking one by one -- hit, wait again, or create -- with rotations / cleaning passes in between), pass-window schedules (a cleaning pass parked between markStale and its sweeps while loaders that "
+        "were started before the pass finish -- value / error / panic --, cached keys are hit, new keys are looked up and a Rotate "
+        "runs; the same window at random inside the concurrent random schedules), and the "
+        "regression schedules of the four repaired races, of the seeded `if ok` retry (witness-M9) and of the seeded "
+        "`deleted || stale` size rule of save (witness-M12). The spec checker "
+        "evaluates on the implementation's observations: coherence, getSize = live sum = what the live entries occupy (entrySize + the size the loader of the held "
+        "value reported) after every event outside a parked pass, size fields = occupied always, managed, bound, and "
         "one load per key and epoch (no goroutine enters its loader while another load of the same key from the same epoch is "
         "running or has succeeded; an epoch ends with an effective cleaning pass or a Release). non-trivial = at least one lookup and one maintenance call with an "
         "effect (rotation, cleaning pass, generations or buckets removed); distinct by event list")
